@@ -37,6 +37,7 @@ FAKE_GO = r"""#!/bin/sh
 if [ -n "$FAKE_K" ]; then head -c "$FAKE_K" "$FAKE_LISTING"; else cat "$FAKE_LISTING"; fi
 case "$FAKE_MODE" in
 fail) exit 3 ;;
+sig*) kill -s "${FAKE_MODE#sig}" $$ ; sleep 5 ;;
 hang) : > "$FAKE_MARK"; exec sleep 60 ;;
 esac
 exit 0
@@ -199,7 +200,7 @@ class ProfEnv:
                 pass
         self.created.clear()
 
-    def run(self, binpath, args, listing, mode="ok", k=None, missing=False, fsize=None, kill=False, expect_size=None, unstartable=None):
+    def run(self, binpath, args, listing, mode="ok", k=None, missing=False, fsize=None, kill=False, expect_size=None, unstartable=None, tmpdir=None):
         """One execution of the real profiler. mode: ok | fail (tool exits 3 after k bytes) ; kill: the tool emits k bytes
         and hangs, the profiler is killed with SIGKILL once the copy goroutine has consumed them."""
         with self.lock:
@@ -208,6 +209,8 @@ class ProfEnv:
         env["PATH"] = self.nopath if missing else self.fake + ":/usr/bin:/bin"
         if unstartable:
             env["PATH"] = self.unstartable[unstartable] + ":" + self.nopath
+        if tmpdir:
+            env["TMPDIR"] = tmpdir
         env["FAKE_LISTING"] = listing
         env["FAKE_MODE"] = "hang" if kill else mode
         env["FAKE_K"] = "" if k is None else str(k)
@@ -366,6 +369,21 @@ def c17_histories(rng, tier, total_of, small_of):
         hs.append(dict(first=[dict(kind="fail", k=k)], small=True))
     hs.append(dict(first=[dict(kind="ok")], small=True))
     hs.append(dict(first=[dict(kind="missing")]))
+    # the tool dies from a signal after part of its output (no exit status at all)
+    for sig in ("KILL", "TERM", "SEGV", "ABRT"):
+        for k in (0, 5000, big):
+            hs.append(dict(first=[dict(kind="fail", k=k, sig=sig)]))
+    hs.append(dict(first=[dict(kind="fail", k=small_of // 2, sig="KILL")], small=True))
+    # the temporary directory of the process ($TMPDIR) is on another file system than the cache directory
+    for lim in (4096, 8192, 65 + big - 1):
+        hs.append(dict(first=[dict(kind="fsize", lim=lim)], tmpdir="other"))
+    hs.append(dict(first=[dict(kind="kill", k=8128)], tmpdir="other"))
+    hs.append(dict(first=[dict(kind="fail", k=5000)], tmpdir="other"))
+    hs.append(dict(first=[dict(kind="ok")], tmpdir="other"))
+    # the binary is replaced and the NEXT run has no working disassembler: it must fail, not answer from the old entry
+    hs.append(dict(first=[dict(kind="ok"), dict(kind="missing", variant="v2")], final_variant="v2"))
+    hs.append(dict(first=[dict(kind="ok"), dict(kind="unstartable", how="badinterp", variant="v2"), dict(kind="fail", k=0, variant="v2")], final_variant="v2"))
+    hs.append(dict(first=[dict(kind="ok", variant="v2"), dict(kind="missing")]))
     # the tool is found on PATH but cannot be started (missing interpreter, not an executable format, empty file)
     for how in ("badinterp", "noformat", "empty"):
         hs.append(dict(first=[dict(kind="unstartable", how=how)]))
@@ -468,6 +486,10 @@ def c17_run_history(env, hist, an, L):
             inits.append("F %d %s" % (pid, xhex(c)))
     fv = hist.get("final_variant", "v1")      # the build the closing normal run profiles (v2: another, SHORTER listing)
     steps = list(hist["first"]) + [dict(kind="ok", final=True, variant=fv)]
+    tmpdir = None
+    if hist.get("tmpdir") == "other":
+        tmpdir = os.path.join(d, "tmp-elsewhere")       # the case directory lives on /dev/shm, the cache under the home directory
+        os.makedirs(tmpdir, exist_ok=True)
     cur_variant = "v1"
     for i, st in enumerate(steps):
         variant = st.get("variant", "v1")
@@ -480,28 +502,29 @@ def c17_run_history(env, hist, an, L):
         if kind == "kill":
             k = st["k"]
             exp = 0 if 65 + k < BUFSIZE else 65 + k
-            r = env.run(binpath, args, lp, k=k, kill=True, expect_size=exp)
+            r = env.run(binpath, args, lp, k=k, kill=True, expect_size=exp, tmpdir=tmpdir)
             toks.append("K %d %s %d ok 1 @%s:0:%d" % (pid, xhex(hsh), i + 1, lname, k))
         elif kind == "fail":
-            r = env.run(binpath, args, lp, mode="fail", k=st["k"])
+            r = env.run(binpath, args, lp, mode=("sig" + st["sig"]) if st.get("sig") else "fail", k=st["k"], tmpdir=tmpdir)
             toks.append("C %d %s %d fail 1 @%s:0:%d" % (pid, xhex(hsh), i + 1, lname, st["k"]))
         elif kind == "missing":
-            r = env.run(binpath, args, lp, missing=True)
+            r = env.run(binpath, args, lp, missing=True, tmpdir=tmpdir)
             toks.append("C %d %s %d missing 0" % (pid, xhex(hsh), i + 1))
         elif kind == "unstartable":
             # for the protocol this is a tool that fails without any output
-            r = env.run(binpath, args, lp, unstartable=st["how"])
+            r = env.run(binpath, args, lp, unstartable=st["how"], tmpdir=tmpdir)
             toks.append("C %d %s %d missing 0" % (pid, xhex(hsh), i + 1))
         elif kind == "fsize":
-            r = env.run(binpath, args, lp, fsize=st["lim"])
+            r = env.run(binpath, args, lp, fsize=st["lim"], tmpdir=tmpdir)
             toks.append("IS:%d %d %s %d ok 1 @%s:0:%d" % (st["lim"], pid, xhex(hsh), i + 1, lname, len(lb)))
         else:
-            r = env.run(binpath, args, lp)
+            r = env.run(binpath, args, lp, tmpdir=tmpdir)
             toks.append("C %d %s %d ok 1 @%s:0:%d" % (pid, xhex(hsh), i + 1, lname, len(lb)))
         if no_temp:
             toks[-1] = "C %d %s %d missing 0" % (pid, xhex(hsh), i + 1)
+        cold_key = "cold2" if variant == "v2" else ("cold3" if small else "cold")
         snap = env.snapshot(binpath)
-        obs.append(dict(step=st, rc=r["rc"], killed=r["killed"], dumped=(r["rc"] == 0 or "Objdump File:" in r["stderr"]), cached="Using cached objdump." in r["stderr"],
+        obs.append(dict(cold_key=cold_key, step=st, rc=r["rc"], killed=r["killed"], dumped=(r["rc"] == 0 or "Objdump File:" in r["stderr"]), cached="Using cached objdump." in r["stderr"],
                         stdout=r["stdout"], stderr_tail=r["stderr"][-400:], files=sorted("%s:%s" % (kd, describe(c)) for (kd, c) in snap),
                         final=[c for (kd, c) in snap if kd == "F"]))
     # non-vacuity: the cache written by the last run is complete and is used without the disassembler
@@ -511,9 +534,10 @@ def c17_run_history(env, hist, an, L):
     env.cleanup_case(binpath)
     shutil.rmtree(d, ignore_errors=True)
     hline = "H %d %d %d %s %d %s" % (pid, BUFSIZE, len(inits), " ".join(inits), len(steps), " ".join(toks))
+    colds = dict(cold=L["cold"], cold2=L["cold2"], cold3=L["cold3"])
     if fv == "v2":
-        return dict(pid=pid, hline=hline, obs=obs, reuse=reuse, hist=hist, arch=an, h1=h2, listing=listing2, cold=L["cold2"])
-    return dict(pid=pid, hline=hline, obs=obs, reuse=reuse, hist=hist, arch=an, h1=h1, listing=listing, cold=L["cold3"] if small else L["cold"])
+        return dict(pid=pid, hline=hline, obs=obs, reuse=reuse, hist=hist, arch=an, h1=h2, listing=listing2, cold=L["cold2"], colds=colds)
+    return dict(pid=pid, hline=hline, obs=obs, reuse=reuse, hist=hist, arch=an, h1=h1, listing=listing, cold=L["cold3"] if small else L["cold"], colds=colds)
 
 
 def check_C17(ctx, replay=None):
@@ -639,6 +663,13 @@ def _c17_body(ctx, env, rng, replay):
                     violated = "an arm binary produced a profile"
             elif last["rc"] == 0 and last["stdout"] != cold["stdout"]:
                 violated = "the run after the history printed a profile that differs from the cold-cache profile"
+            # ... and so does every EARLIER run that ended with status 0: a profile, if one is printed, is the cold-cache
+            # profile of the binary that is at the path at that moment
+            if an != "ARM" and not violated:
+                for k2, o in enumerate(res["obs"][:-1]):
+                    if o["rc"] == 0 and not o["killed"] and o["stdout"] != res["colds"][o["cold_key"]]["stdout"]:
+                        violated = "run %d of the history (%s) ended with status 0 and printed a profile that is not the cold-cache profile of the binary then at the path" % (k2, json.dumps(o["step"]))
+                        break
             if last["dumped"] and last["final"]:
                 body = last["final"][0]
                 want = res["h1"].encode() + b"\n" + res["listing"].encode()
@@ -671,7 +702,7 @@ def _c17_body(ctx, env, rng, replay):
     reused = sum(1 for res in results if res["reuse"]["cached"] and res["arch"] != "ARM")
     ctx.coverage.update(dict(
         evaluations=env.executions, histories=len(results), distinct_nontrivial=len(nontrivial),
-        rule="histories of the real seccomp-profiler binary (fake `go tool objdump` on PATH emitting a synthetic listing of 9-13 KB with syscall sites up to its last line): first runs cut by SIGKILL after the tool wrote k bytes, tool exiting non-zero after k bytes, tool missing, tool present on PATH but not startable (missing interpreter, no executable format, empty file), binaries whose file name has 200/229 bytes (temporary name fits NAME_MAX) and 239/244 bytes (only the final name fits: every run must fail), write failing at a file size limit (RLIMIT_FSIZE), the binary replaced by another one (with a shorter listing) at the same path - in the middle of a history and before the closing normal run -, planted temporary files with every class of prefix, planted final files that are not for this binary; k and limits around 0, 64/65, 4031 (=4096-65), multiples of 4096, the end; then a normal run whose profile is compared with a cold-cache run and whose cache directory after every step is compared with the extracted model (names modulo the random suffix); non-trivial = distinct history whose first part left a file behind, failed, or started from planted files",
+        rule="histories of the real seccomp-profiler binary (fake `go tool objdump` on PATH emitting a synthetic listing of 9-13 KB with syscall sites up to its last line): first runs cut by SIGKILL after the tool wrote k bytes, tool exiting non-zero after k bytes, tool dying from SIGKILL / SIGTERM / SIGSEGV / SIGABRT after k bytes, $TMPDIR on another file system than the cache, the binary replaced and then a run without a working tool, tool missing, tool present on PATH but not startable (missing interpreter, no executable format, empty file), binaries whose file name has 200/229 bytes (temporary name fits NAME_MAX) and 239/244 bytes (only the final name fits: every run must fail), write failing at a file size limit (RLIMIT_FSIZE), the binary replaced by another one (with a shorter listing) at the same path - in the middle of a history and before the closing normal run -, planted temporary files with every class of prefix, planted final files that are not for this binary; k and limits around 0, 64/65, 4031 (=4096-65), multiples of 4096, the end; then a normal run whose profile is compared with a cold-cache run and whose cache directory after every step is compared with the extracted model (names modulo the random suffix); non-trivial = distinct history whose first part left a file behind, failed, or started from planted files",
         traces_validated_against_impl=ncorr, counterexamples=nbad, cache_reused_without_tool=reused,
         input_distribution=dict(step_kinds=dist, arches={an: sum(1 for r in results if r["arch"] == an) for an in arch_plan}),
         samples=samples))
@@ -805,7 +836,18 @@ def c18_cases(rng, tier, arches):
             rng.shuffle(bl)
             rng.shuffle(al)
             cases.append(dict(arch=an, kind=shape, sites=found, bl=c18_flag_occurrences(rng, bl), al=c18_flag_occurrences(rng, al),
-                              fmt=rng.choice(["config", "config", "code"])))
+                              fmt=rng.choice(["config", "config", "code"]), out=rng.choice([None, None, None, "new", "existing"])))
+        # boundary sizes: a syscall found 255 / 256 / 257 / 512 times; deny lists of exactly 15 / 16 / 17 / 32 / 33 / 64 / 65 names
+        for mult in (255, 256, 257, 512, 65536 if tier != "quick" else 1024):
+            base = rng.sample(nums, 6)
+            found = [base[0]] * mult + base[1:] + [base[1]] * 3
+            cases.append(dict(arch=an, kind="multiplicity_%d" % mult, sites=found, bl=[], al=[], fmt="config"))
+        for nb in (15, 16, 17, 32, 33, 64, 65):
+            found = rng.sample(nums, min(len(nums), nb + 10))
+            fn = [dict(table)[x] for x in found]
+            bl = rng.sample(fn, nb - 3) + rng.sample([s for s in names_all if s not in fn], 3)
+            rng.shuffle(bl)
+            cases.append(dict(arch=an, kind="denylist_%d" % nb, sites=found, bl=c18_flag_occurrences(rng, bl) if nb % 2 else [",".join(bl)], al=[], fmt="config"))
         cases.append(dict(arch=an, kind="debug_yaml", sites=[rng.choice(nums) for _ in range(12)], bl=[], al=[names_all[0]], fmt="config", debug=True))
         cases.append(dict(arch=an, kind="empty_flag_values", sites=[nums[0], nums[1]], bl=["", " ,; "], al=[",", ""], fmt="config"))
     cases.append(dict(arch="ARM", kind="arm_refused", sites=[1, 2, 3], bl=[], al=["read"], fmt="config"))
@@ -830,9 +872,23 @@ def c18_run_case(env, case, arches):
         args += ["-b", v]
     for v in case["al"]:
         args += ["-allow", v]
+    # -out <file>: a new file, or one that exists already and is longer than what is written now (an earlier profile)
+    target = None
+    if case.get("out"):
+        target = os.path.join(d, "profile-out")
+        if case["out"] == "existing":
+            with open(target, "w") as f:
+                f.write("seccomp:\n  default_action: errno\n  syscalls:\n  - action: allow\n    names:\n" + "".join("    - earlier_name_%d\n" % k for k in range(2500)))
+        args += ["-out", target]
     r = env.run(binpath, args, lp)
     env.snapshot(binpath)
     env.cleanup_case(binpath)
+    if target is not None:
+        try:
+            with open(target, errors="replace") as f:
+                r["stdout"] = f.read()
+        except OSError:
+            r["stdout"] = ""
     outp = os.path.join(d, "out.go" if case["fmt"] == "code" else "out.yaml")
     with open(outp, "w") as f:
         f.write(r["stdout"])
@@ -947,7 +1003,7 @@ def _c18_body(ctx, env, rng, replay):
         if m1 and m2 and (int(m1.group(1)) != len(res["found"]) or int(m2.group(1)) != len(set(n for n, _ in res["found"]))):
             report("correspondence", i, "the number of syscall sites the profiler reports differs from the site model (%s total, %s unique expected %d/%d)"
                    % (m1 and m1.group(1), m2 and m2.group(1), len(res["found"]), len(set(n for n, _ in res["found"]))), False)
-            continue
+            # (no `continue`: the profile itself is judged below against the property text)
         got_names = None
         if c["fmt"] == "config":
             pol, prog = loaded.get(i, ("-", "LOADERR"))
@@ -1067,7 +1123,7 @@ def _c18_body(ctx, env, rng, replay):
             break
     ctx.coverage.update(dict(
         evaluations=env.executions + nevents, profiler_runs=env.executions, events_run=nevents, distinct_nontrivial=len(nontrivial),
-        rule="the real seccomp-profiler binary on synthetic listings built from a site model (call sites and raw SYSCALL / INT $0x80 sites, hex and decimal numbers, repeated sites, numbers without a name) for amd64 and 386 targets (arm: refused), x -b / -allow values (none, disjoint, overlapping, unknown names, names of other architectures, number-like names, repeated flags, separators , ; space tab newline CR CRLF VT FF and white space outside ASCII (U+0085, U+00A0, U+1680, U+2003, U+2028, U+3000), empty values) x -format config|code (+ -d once per architecture); the whole table as found set once per architecture and format; stdout compared with the extracted model (profile_names_id) and with the property text evaluated in Python; YAML loaded through go-ucfg exactly like cmd/sandbox and compiled: instruction-exact against the extracted compile of profile_policy and evaluated on every number of the table (+3 without a name) against decide and against 'allow iff listed, else ERRNO|EPERM'; Go source parsed with go/parser (one built with go vet); non-trivial = distinct (arch, found set, flags, format) with a non-empty profile and at least one flag or the whole table",
+        rule="the real seccomp-profiler binary on synthetic listings built from a site model (call sites and raw SYSCALL / INT $0x80 sites, hex and decimal numbers, repeated sites, numbers without a name) for amd64 and 386 targets (arm: refused), x -b / -allow values (none, disjoint, overlapping, unknown names, names of other architectures, number-like names, repeated flags, separators , ; space tab newline CR CRLF VT FF and white space outside ASCII (U+0085, U+00A0, U+1680, U+2003, U+2028, U+3000), empty values; deny lists of exactly 15..65 names; a syscall found 255 / 256 / 257 / 512 / 1024 times) x stdout or -out onto a new file or onto an existing longer file x -format config|code (+ -d once per architecture); the whole table as found set once per architecture and format; stdout compared with the extracted model (profile_names_id) and with the property text evaluated in Python; YAML loaded through go-ucfg exactly like cmd/sandbox and compiled: instruction-exact against the extracted compile of profile_policy and evaluated on every number of the table (+3 without a name) against decide and against 'allow iff listed, else ERRNO|EPERM'; Go source parsed with go/parser (one built with go vet); non-trivial = distinct (arch, found set, flags, format) with a non-empty profile and at least one flag or the whole table",
         traces_validated_against_impl=ncorr, counterexamples=nbad, correspondence_differences=ndiff, go_source_built=built,
         input_distribution=dict(kinds=dist), samples=samples))
     ctx.assumptions += ["gopkg.in/yaml.v2 (emitter), go-ucfg (loader) and text/template are exercised, not modelled",
